@@ -129,11 +129,23 @@ def heal_neighbour_case(ctx, case, rng, img, info, payloads, geom):
         lo = b * bss[3]
         n = min(bss[3], len(payloads[pi]) - lo)
         r4.seek(lo)
-        r4.write(pyenv.rbytes(rng, n))
+        # ... also when the block is rewritten with the very bytes it holds (a block whose data is in place and whose hash path is not --
+        # a never-hashed block of a formatted save, a stale entry): the write stores nothing new in level 4 and must still re-hash the path
+        same = rng.random() < 0.5
+        written = bytes(payloads[pi][lo:lo + n]) if same else pyenv.rbytes(rng, n)
+        r4.write(written)
         r4.seek(0)
         after = r4.read()
         want, invalid4, res4 = verified_view(bio4.getvalue(), info, pi)
-        ncase = dict(case, part=pi, block=b, damaged_hash_level=lv, damaged_hash_block=anc)
+        ncase = dict(case, part=pi, block=b, damaged_hash_level=lv, damaged_hash_block=anc, same_bytes=same)
+        ctx.stat('heal_by_same_bytes' if same else 'heal_by_new_bytes')
+        if after[lo:lo + n] != written:
+            ctx.diff('oracle', 'heal:written-block', ncase, written[:8].hex(), after[lo:lo + 8].hex(),
+                     f'a whole-block write to level-4 block {b} beneath a damaged level-{lv} hash block ('
+                     + ('the bytes the block already held' if same else 'new bytes') + ') does not read back in the same session: its hash path was not renewed')
+        elif chain_bad({(lv_, b_) for (p_, lv_, b_) in res4['bad_blocks'] if p_ == pi}, ip, 4, b):
+            ctx.diff('oracle', 'heal:written-block-file', ncase, 'a valid hash path', 'invalid',
+                     f'after a whole-block write to level-4 block {b} beneath a damaged level-{lv} hash block the file\'s hash path of that block does not verify')
         if want is not None and after != bytes(want):
             k = next((i for i, (x, y) in enumerate(zip(after, bytes(want))) if x != y), min(len(after), len(want)))
             ctx.diff('oracle', 'heal:neighbours', ncase, bytes(want)[k:k + 8].hex(), after[k:k + 8].hex(),
